@@ -88,7 +88,7 @@ QByteArray content_of(const LogMessage &m, int cid)
                                       .count());
     out += '\x1f';
     // thread: does the recorded thread id equal the id of the thread that made the call?
-    int producer = cid >= 0 ? (cid >> 12) : -1;
+    int producer = cid >= 0 ? (cid >> 16) : -1;
     int thread_ok = -1;
     if (producer >= 0 && producer < 64 && C->producer_tid[producer] >= 0)
         thread_ok = (m.threadId() == (quint64)C->qtid[C->producer_tid[producer]]) ? 1 : 0;
@@ -156,6 +156,37 @@ private:
     int m_id;
 };
 
+// A sink that shows when and on which thread its send() and flush() run; both contain a decision
+// point, so that anything allowed to run concurrently with them does
+class ProbeSink : public Sink
+{
+public:
+    explicit ProbeSink(int id) : m_id(id) { }
+    void send(const LogMessage &m) override
+    {
+        note_thread();
+        int cid = parse_call_id(m.message());
+        sim::ev(E_PROBE_IN, m_id, cid);
+        sim::yield("probe-send");
+        sim::ev(E_PROBE_OUT, m_id, cid);
+    }
+    bool flush() override
+    {
+        sim::ev(E_FLUSH_IN, m_id);
+        sim::yield("probe-flush");
+        sim::ev(E_FLUSH_OUT, m_id);
+        return true;
+    }
+
+private:
+    int m_id;
+};
+
+HandlerPtr make_probe_sink(int id)
+{
+    return QSharedPointer<ProbeSink>::create(id);
+}
+
 HandlerPtr build(const Node &n)
 {
     const std::string &k = n.kind;
@@ -193,7 +224,7 @@ HandlerPtr build(const Node &n)
         int m = n.a + 2;
         return FunctionFilterPtr::create([m](const LogMessage &lm) {
             int cid = parse_call_id(lm.message());
-            return ((cid & 0xfff) % m) != 0;
+            return ((cid & 0xffff) % m) != 0;
         });
     }
     if (k == "fnfmt") {
@@ -222,9 +253,9 @@ HandlerPtr build(const Node &n)
         return FunctionHandlerPtr::create([m](LogMessage &lm) {
             int cid = parse_call_id(lm.message());
             int s = sim::self();
-            if (cid < 0 || (cid >> 12) == kNestedProducer || s < 0 || s >= 64 || !C->is_worker[s])
+            if (cid < 0 || (cid >> 16) == kNestedProducer || s < 0 || s >= 64 || !C->is_worker[s])
                 return true;
-            if (((cid & 0xfff) + (cid >> 12)) % m != 0)
+            if (((cid & 0xffff) + (cid >> 16)) % m != 0)
                 return true;
             // logging through an object that is being destroyed is outside every property
             // (DESIGN 4 C04: producers are joined before the destructor paths): not done here either
@@ -252,6 +283,8 @@ HandlerPtr build(const Node &n)
             return true;
         });
     }
+    if (k == "probe")
+        return make_probe_sink(n.id);
     if (k == "rec")
         return QSharedPointer<RecSink>::create(n.a);
     if (k == "gate")
@@ -600,6 +633,8 @@ void setup_c11(const Plan &P)
         else
             C->logger->configure(path, 0, 0, RotatingFileSink::Option::None, false);
     }
+    // observes the flush on a fatal message: it must not run while another thread is inside a sink
+    *C->logger << make_probe_sink(900);
 }
 
 void warm_up()
@@ -647,6 +682,7 @@ sim::SchedConfig sched_config(const Plan &P)
     sc.spurious_pct = P.spurious_pm;
     sc.time_adv_pct = P.time_adv_pct;
     sc.clock_yield_pct = P.clock_yield_pct;
+    sc.max_decisions = (uint32_t)P.max_decisions;
     sc.stall_tid = P.stall_tid;
     sc.stall_from = (uint32_t)P.stall_from;
     sc.stall_len = (uint32_t)P.stall_len;
